@@ -98,7 +98,8 @@ def run(ctx):
                       "NeverRestart", "NeverQuery", "NeverInitPut", "NeverFailedWrite", "NeverCrashedMidPrune",
                       "NeverCrossedBack"):
             txt, _ = cfg_text("hi", repaired, max_ops=6, invariants=False)
-            txt = txt.replace("CHECK_DEADLOCK FALSE", "INVARIANTS %s\nCHECK_DEADLOCK FALSE" % wname)
+            # no VIEW here: the witnesses speak about act/res, which the view hides
+            txt = txt.replace("VIEW view\n", "").replace("CHECK_DEADLOCK FALSE", "INVARIANTS %s\nCHECK_DEADLOCK FALSE" % wname)
             r = ctx.tlc_check("chain", "MCCrash.tla", "witness.cfg", files={"witness.cfg": txt}, timeout=600,
                               expect_violation=True, label="witness " + wname)
             if r["ok"]:
